@@ -12,7 +12,11 @@ from props import c09
 
 REQUIRED = ['drop_idempotent', 'est_eq_after_deletion', 'incomplete_rows_irrelevant', 'drop_all_eq_complete_case',
             'miss_flag_spec', 'outcome_fit_on_observed', 'std_missing_form', 'iptw_missing_saturated',
-            'gformula_predict_missing', 'tmle_plugin_missing_partial', 'tmle_missing_saturated', 'measures_ignore_and_count']
+            'gformula_predict_missing', 'tmle_plugin_missing_partial', 'tmle_missing_saturated', 'measures_ignore_and_count',
+            # Props/C10_Gen.lean: check_input_data and its call sites as regenerated from /repo
+            'check_input_data_spec', 'check_input_data_generated', 'check_input_data_raises_iff', 'sites_as_documented',
+            'drop_all_classes_complete_case', 'keep_classes_format', 'est_eq_after_deletion_generated',
+            'miss_flag_spec_generated']
 RULE = ('random categorical data sets (1-3 covariates, <= 8 strata, positivity by construction among the complete '
         'rows; outcome binary / normal / count) with outcome missingness none / MCAR / depending on A and L, to which '
         'incomplete rows are added (none / MCAR / selected depending on A and L): copies of rows with the exposure, a '
@@ -31,7 +35,10 @@ RULE = ('random categorical data sets (1-3 covariates, <= 8 strata, positivity b
         'missingness models coarsened) so that each nuisance path decides the answer in some cell.  '
         'distinct = (data seed, class, options); non-trivial = the data set contains rows missing exposure or '
         'covariates, or missing outcomes whose strata distribution changes the closed form (all-retained-rows '
-        'standardization differs from the complete-case one)')
+        'standardization differs from the complete-case one).  Translator stream: check_input_data itself called with all '
+        'eight flag combinations on small frames (1-13 rows, numeric exposure with an occasional value other than 0/1, binary '
+        'or continuous outcome, NaN rate 0 / 0.15 / 0.4 in every column, four row-label shapes) against the code '
+        'regenerated from it (Gen/InputData.lean)')
 ASSUMPTIONS = ['statsmodels GLM/GEE are deterministic functions of the rows they are given (same rows in the same order '
                '-> bit-identical fits); measured: results on the data and on the deleted data agree to 1e-12',
                'statsmodels GLM solves the score equations of saturated models (reference fit per data set: gate H)',
@@ -479,10 +486,14 @@ def spy_checks(chk, which, spy, df, exp, case):
 def model_checks(chk, drv, which, o, df, covs, ob, nu, est, case, dc):
     """K: check_input_data vs the Lean model; estimator model composed with it, on the data and after deletion"""
     raw = enc_raw(df, covs, o.get('w'))
-    rep, _ = drv.ask('c10', est='check', dc=int(dc), **raw)
-    ok = rep['status'] == 'ok' and c09_ints(rep['kept']) == ob['kept_pos'] and (rep['miss'] == '1') == ob['flag'] and \
-        c09_ints(rep['obs']) == ob['obs'] and rep['same'] == '1'
-    chk.k(ok, '%s: rows kept / observed-outcome indicator / miss_flag of check_input_data = model' % which,
+    # row retention by the REGENERATED check_input_data (Gen/InputData.lean), called with the flags the generated
+    # call-site table records for this class's constructor; `model` = it agrees with the hand-written checkInput
+    rep, _ = drv.ask('c10', est='check', cls=which, **raw)
+    ok = rep['status'] == 'ok' and rep.get('raise') == '0' and c09_ints(rep['kept']) == ob['kept_pos'] and \
+        (rep['miss'] == '1') == ob['flag'] and c09_ints(rep['obs']) == ob['obs'] and rep['same'] == '1' and \
+        rep['model'] == '1' and (rep['dc'] == '1') == bool(dc)
+    chk.k(ok, '%s: rows kept / observed-outcome indicator / miss_flag of check_input_data = the regenerated code run with '
+          'the flags of this class\'s constructor (generated call-site table) = the hand-written model' % which,
           dict(case, model={k: v for k, v in rep.items() if len(v) < 80}))
     if which == 'IPTW' and o.get('msm') != 'modifier':
         rep, _ = drv.ask('c10', est='iptw', dc=0, stab=int(o['stab']), tgt=o['tgt'], n=c09.encv(nu['n']),
@@ -665,6 +676,23 @@ def one_survival(chk, drv, rng, tier, seed=None):
     dele = df.dropna(subset=['A', 'L1', 'L2'])
     cc = df.dropna().reset_index(drop=True)
     rec = {'rows': int(len(df)), 'retained': int(len(cc)), 'data_seed': seed, 'kind': 'survival', 'index': shape}
+    if drv is not None:
+        # K: the frame SurvivalGFormula's constructor keeps = the regenerated check_input_data with the flags of the
+        # generated call-site entry of SurvivalGFormula (the class re-orders its rows afterwards: labels compared as sets)
+        from zepid.causal.gformula import SurvivalGFormula
+        other = [c for c in df.columns if c not in ('A', 'Y')]
+        okc = ~df[other].isna().any(axis=1).values
+        raw = dict(a=','.join('_' if np.isnan(v) else str(int(v)) for v in df['A'].tolist()),
+                   l=','.join('0' if b else '_' for b in okc.tolist()),
+                   y=','.join('_' if np.isnan(v) else rq(float(v)) for v in df['Y'].tolist()))
+        rep, _ = drv.ask('c10', est='check', cls='SurvivalGFormula', **raw)
+        st, val = attempt(lambda: SurvivalGFormula(df, idvar='id', exposure='A', outcome='Y', time='t', weights='w'))
+        ok = st == 'ok' and rep['status'] == 'ok' and rep.get('raise') == '0' and 'index' in val.gf.columns and \
+            sorted(c09_ints(rep['kept'])) == sorted(int(v) for v in df.index.get_indexer(pd.Index(list(val.gf['index'])))) \
+            and rep['model'] == '1' and (rep['miss'] == '1') == bool(val._miss_flag)
+        chk.k(ok, 'SurvivalGFormula: rows its constructor keeps = the regenerated check_input_data run with the flags of '
+              'its generated call-site entry', {'data': rec, 'model': {k: v for k, v in rep.items() if len(v) < 80},
+                                                'error': repr(val)[:200] if st == 'err' else None})
     for tr in ('all', 'natural'):
         o = dict(treatment=tr, model='A + L1 + L2 + t')
         case = {'estimator': 'SurvivalGFormula', 'options': o, 'data': rec}
@@ -682,6 +710,62 @@ def one_survival(chk, drv, rng, tier, seed=None):
               case)
         chk.d(same_est(e1, e3, XTOL) and len(gf) == len(cc), 'SurvivalGFormula: drop-everything estimator = its '
               'complete-case result', case)
+
+
+def gen_stream(chk, drv, rng, tier):
+    """K for the translator's output itself: `zepid.causal.utils.check_input_data` called directly, with each of the
+    eight flag combinations, on small frames with a numeric exposure column (mostly 0/1, sometimes another value: the
+    binary-exposure guard), a binary or continuous outcome, NaN anywhere and one of the row-label shapes; against the
+    regenerated `Gen.check_input_data` (driver op c10gen): raises or not, retained labels in order, indicator column,
+    miss_flag, continuous"""
+    import warnings
+    from zepid.causal.utils import check_input_data
+    n_frames = 12 if tier == 'quick' else 60
+    for k in range(n_frames):
+        n = int(rng.integers(1, 14))
+        cont = bool(rng.integers(0, 2))
+        ev = rng.choice([0.0, 1.0], size=n)
+        odd = k % 3 == 0
+        if odd:
+            ev[int(rng.integers(0, n))] = float(rng.choice([2.0, 0.5, -1.0]))
+        yv = rng.normal(size=n).round(2) if cont else rng.choice([0.0, 1.0], size=n)
+        df = pd.DataFrame({'L1': rng.integers(0, 3, n).astype(float), 'A': ev, 'L2': rng.integers(0, 2, n).astype(float),
+                           'Y': yv})
+        pm = float(rng.choice([0.0, 0.15, 0.4]))
+        for c in df.columns:
+            df.loc[rng.uniform(size=n) < pm, c] = np.nan
+        shape = INDEX_SHAPES[k % len(INDEX_SHAPES)]
+        df = reshape_index(df, 'shifted' if shape == 'string' else shape, rng)
+        okc = ~df[['L1', 'L2']].isna().any(axis=1).values
+        raw = dict(e=','.join('_' if np.isnan(v) else rq(float(v)) for v in df['A'].tolist()),
+                   l=','.join('0' if b else '_' for b in okc.tolist()),
+                   y=','.join('_' if np.isnan(v) else rq(float(v)) for v in df['Y'].tolist()))
+        for dc in (0, 1):
+            for dm in (0, 1):
+                for bo in (0, 1):
+                    case = {'frame': df.to_dict('list'), 'index': [str(v) for v in df.index], 'drop_censoring': dc,
+                            'drop_missing': dm, 'binary_exposure_only': bo}
+                    chk.case(case, ('gen', k, dc, dm, bo) if (df.isna().any().any() or odd) else None)
+                    chk.count('generated-check_input_data/dc=%d/bo=%d/%s' % (dc, bo, 'odd-exposure' if odd else 'binary'))
+                    with warnings.catch_warnings():
+                        warnings.simplefilter('ignore')
+                        st, val = attempt(lambda: check_input_data(df, 'A', 'Y', 'K', bool(dc), bool(dm), bool(bo)))
+                    rep, _ = drv.ask('c10gen', dc=dc, dm=dm, bo=bo, **raw)
+                    if st == 'err':
+                        ok = rep['status'] == 'ok' and rep['raise'] == '1' and isinstance(val, ValueError)
+                        got = repr(val)[:200]
+                    else:
+                        out, flag, continuous = val
+                        pos = [int(v) for v in df.index.get_indexer(pd.Index(list(out['index'])))] \
+                            if 'index' in out.columns else None
+                        ind = [int(v) for v in np.asarray(out['__missing_indicator__'])] \
+                            if '__missing_indicator__' in out.columns else None
+                        got = {'kept': pos, 'obs': ind, 'flag': bool(flag), 'continuous': bool(continuous)}
+                        ok = rep['status'] == 'ok' and rep['raise'] == '0' and c09_ints(rep['kept']) == pos and \
+                            c09_ints(rep['obs']) == ind and (rep['miss'] == '1') == bool(flag) and \
+                            (rep['cont'] == '1') == bool(continuous)
+                    chk.k(ok, 'check_input_data called directly = the code regenerated from it (raise / retained rows / '
+                          'indicator column / miss_flag / continuous)', dict(case, python=got, generated=rep))
 
 
 def measures_recheck(chk, rng):
@@ -732,6 +816,8 @@ def run(chk, drv, rng, tier):
         for _ in range(2):
             one_survival(chk, drv, rng, tier)
         measures_recheck(chk, rng)
+    if drv is not None:
+        gen_stream(chk, drv, rng, tier)
 
 
 def replay(rec):
